@@ -120,7 +120,7 @@ class C13(PropCheck):
             names, parts = l.split(" ; "), io.split(" ; ")
             addr = {}
             what = None
-            lossy = False
+            lossy = ack_loss = False
             for k, (name, part) in enumerate(zip(names, parts)):
                 t = name.split()
                 if k == 0:
@@ -132,6 +132,7 @@ class C13(PropCheck):
                     continue
                 if t[:2] == ["env", "faults"]:
                     lossy = t[2] != "-"
+                    ack_loss = "A" in t[2]   # a packet whose radio-level ACK is lost *is* received
                     continue
                 if len(t) < 2 or t[1] not in ("write", "multicast") or len(f) != 4:
                     continue
@@ -161,9 +162,12 @@ class C13(PropCheck):
                 dst, typ = int(t[2]), int(t[3])
                 if dst not in addr.values():
                     continue   # destination absent (failure injection)
+                present = set(addr.values())
+                closed = all((a & ((1 << (3 * (len(digits(a)) - 1))) - 1)) in present for a in present if a)
+                lossy_here = lossy or not closed   # an absent router is failure injection, too
                 h = hops(src, dst)
                 needs = 64 < typ < 192 and h >= 2
-                reached_src = any(r["ok"] and r["to"] == src and r["sender"] is not None and adjacent(r["sender"], src) for r in acks)
+                reached_src = any((r["ok"] or ack_loss) and r["to"] == src and r["sender"] is not None and adjacent(r["sender"], src) for r in acks)
                 if not needs:
                     if acks:
                         what = (f"op {k}: message {oct(src)}->{oct(dst)} type {typ} over {h} hop(s) caused {len(acks)} NETWORK_ACK frame(s) "
@@ -171,16 +175,16 @@ class C13(PropCheck):
                 else:
                     if r0 == "T" and not reached_src:
                         what = f"op {k}: write() {oct(src)}->{oct(dst)} type {typ} returned True but no NETWORK_ACK reached the sender"
-                    elif r0 == "F" and reached_src and not lossy:
+                    elif r0 == "F" and reached_src and not lossy_here:
                         what = f"op {k}: write() {oct(src)}->{oct(dst)} type {typ} returned False although the NETWORK_ACK reached the sender"
                     origins = {r["sender"] for r in acks if r["sender"] is not None and adjacent(r["sender"], dst)}
                     # the node that delivers the frame to the destination originates the ACK: it is adjacent to dst;
                     # every other transmitter of a 193 frame merely forwards it (it is on the route, closer to src)
                     first_tx = [r for r in acks if r["sender"] is not None and adjacent(r["sender"], dst)]
-                    if not lossy and len(first_tx) != 1:
+                    if not lossy_here and len(first_tx) != 1:
                         what = (f"op {k}: message {oct(src)}->{oct(dst)} type {typ}: the delivering node transmitted {len(first_tx)} NETWORK_ACKs, "
                                 "expected exactly one")
-                    if not lossy and r0 != "T":
+                    if not lossy_here and r0 != "T":
                         what = f"op {k}: loss-free routed message {oct(src)}->{oct(dst)} type {typ}: write() returned {r0}"
                 if what:
                     break
